@@ -24,7 +24,7 @@ def FLOORS(tier):
     q = tier == "quick"
     f = {"inv-checks": 20000 if q else 10 ** 6, "refresh-exactness-checks": 800 if q else 30000,
          "observe-forms-checked": 600 if q else 20000, "constraint-ancilla-checks": 150 if q else 5000,
-         "observe-with-ancillas": 60 if q else 2000, "op:observe-after-cancel_top": 60 if q else 2000, "observe-stale-with-ancillas": 15 if q else 500, "op:derive-then-constraint": 10 if q else 300}
+         "observe-with-ancillas": 60 if q else 2000, "op:construct-from-raw": 200 if q else 6000, "op:observe-after-cancel_top": 60 if q else 2000, "observe-stale-with-ancillas": 15 if q else 500, "op:derive-then-constraint": 10 if q else 300}
     for t in TYPES:
         f["type:" + t] = 150 if q else 5000
     for o in OPS:
@@ -114,6 +114,39 @@ def case(ctx, rng, idx):
     labs = gen.labels(rng, rng.randint(2, 5), matrix=not labelled)
     m = T()
     hist, kinds = [], set()
+    if rng.random() < 0.25:
+        # the model is born from a constructor call whose raw input has alias keys (several spellings of one monomial),
+        # some of which cancel: bookkeeping may be loose from the start, refresh() must still make it exact
+        raw = []
+        for _ in range(rng.randint(1, 4)):
+            k = tuple(rng.sample(labs, min(len(labs), rng.randint(1, 2 if deg2 else 3))))
+            v = rng.choice(gen.DYADIC)
+            raw.append((k, v))
+            if rng.random() < 0.6:
+                k2 = list(k)
+                rng.shuffle(k2)
+                if not deg2 and kind == "bool" and rng.random() < 0.5:
+                    k2.append(k2[0])
+                elif not deg2 and kind == "spin" and rng.random() < 0.5:
+                    k2 += [labs[0], labs[0]]
+                raw.append((tuple(k2), -v if rng.random() < 0.7 else v))
+        try:
+            m = T(raw) if rng.random() < 0.5 else T(dict(raw))
+            hist.append(["construct-from-raw", raw])
+            ctx.cat("op:construct-from-raw")
+            if rng.random() < 0.6:
+                ok, _ = ctx.call("refresh", m.refresh, _w={"type": tname, "history": hist})
+                if not ok:
+                    return
+                hist.append(["refresh"])
+                e = exact_after_refresh(m, labelled)
+                ctx.count("refresh-exactness-checks")
+                if e:
+                    ctx.violation("refresh-after-construction:" + e[0], "refresh() right after construction from %r: %s; bookkeeping %r" % (raw, e, bookkeeping(m)),
+                                  {"type": tname, "history": hist})
+                    return
+        except KeyError:
+            m = T()
     lineage = set()
     reached2 = False
     after_derive = False
